@@ -415,4 +415,4 @@ CLAIM = ("Seeded exploration of interleavings of 2-3 complete library instances 
          "file operations) from the run seed, fcntl locks are owned per simulated process and block through the scheduler. Every search, read and stale-handle use is judged with interval semantics against the acknowledged "
          "history (exact when calls do not overlap); at quiescence all processes' views, the independently decoded disk and a third copy started cold must show exactly the acknowledged objects with every acknowledged "
          "attribute change present; deadlocks and step-budget overruns are violations. Evidence, not proof.")
-NOTE = "Trusted: simfs lock semantics (whole-file POSIX locks per simulated pid, dropped on any close), that one library copy per process is a faithful process (no shared memory between copies: checked by symbol renaming of every defined symbol)."
+NOTE = "Trusted: simfs lock semantics (whole-file POSIX locks per simulated pid, dropped on any close), that one library copy per process is a faithful process (no shared memory between copies: checked by symbol renaming of every defined symbol). Every sixth plan runs the processes on the SQLite object store (own connection each, locks arbitrated by the SQLite VFS stub) at call granularity only."
